@@ -627,12 +627,18 @@ def gen_doc_project(rng, diverge):
     for c in p["controllers"]:
         for m in c["methods"]:
             if rng.random() < 0.3:
-                m["ret"] = rng.choice(["ItemFull", "*ItemFull", "[]ItemFull"])
+                m["ret"] = rng.choice(["ItemFull", "*ItemFull", "[]ItemFull", "[]string", "[]int"])
             for prm in m["params"]:
                 if prm["ctx"]:
                     continue
                 if prm["loc"] == "body":
-                    prm["type"] = rng.choice(["Item", "ItemFull"])
+                    prm["type"] = rng.choice(["Item", "ItemFull", "[]string", "[]string", "[]int"])
+                    if prm["type"].startswith("[]"):
+                        # a composite payload that is not a model: the same type under different usage-site constraints
+                        prm["pointer"] = False
+                        v = safe_validator(rng, prm["type"])
+                        prm["validator"] = v
+                        sites.append(prm)
                     continue
                 if prm["loc"] == "query" and not prm["slice"] and rng.random() < 0.2:
                     prm["type"] = rng.choice(["ItemColor", "ItemLevel"])
